@@ -128,7 +128,7 @@ def eager_jobs(rng: Rng, n: int) -> list[dict]:
         api = rng.choice(c02.APIS)
         retries, nfail = rng.choice([(0, 0), (2, 0), (2, 1), (2, 2)])
         jobs.append({"id": f"e{i}", "retries": retries, "store_result": rng.random() < 0.8, "timeout": 2 * S,
-                     "plan": [{"k": "raise"}] * nfail + [{"k": "eager", "pre": pre, "api": api}, {"k": "ret"}]})
+                     "plan": [{"k": "raise"}] * nfail + [{"k": "eager", "pre": pre, "api": api, "guard": rng.random() < 0.4}, {"k": "ret"}]})
     return jobs
 
 
